@@ -98,6 +98,16 @@ let run (op_full : string) (a : string array) : string =
   | "get_by_path" -> show_sel prefix (get_by_path_m (unhex a.(0)) (parse_jsonpath a.(1)) prefix)
   | "get_by_path_first" -> show_sel prefix (get_by_path_first_m (unhex a.(0)) (parse_jsonpath a.(1)) prefix)
   | "get_by_path_array" -> show_sel prefix (get_by_path_array_m (unhex a.(0)) (parse_jsonpath a.(1)) prefix)
+  | "path_batch" ->
+      let root = unhex a.(0) in
+      let f = match a.(1) with "get_by_path" -> get_by_path_m | "get_by_path_first" -> get_by_path_first_m | _ -> get_by_path_array_m in
+      let rec go i data offs =
+        if i >= Array.length a then "ok " ^ hex data ^ " " ^ show_offs offs
+        else match f root (parse_jsonpath a.(i)) data with
+          | Ok (d, o) -> go (i + 1) d (offs @ o)
+          | Err e -> "err " ^ show_err e ^ " " ^ hex data ^ " " ^ show_offs offs
+          | Panic -> "panic" in
+      go 2 prefix []
   | "path_exists" -> show_res show_bool (path_exists_m (unhex a.(0)) (parse_jsonpath a.(1)))
   | "path_match" -> show_res show_bool (path_match_m (unhex a.(0)) (parse_jsonpath a.(1)))
   | "parse_json_path" ->
